@@ -198,6 +198,27 @@ def history(run, vlq):
     run.bounded_check('rt.history', 'call, edit the result in place, call again: %d calls of the 4 list/string level functions' % n, n)
 
 
+def vlq_layer(run, tier, bounded=False):
+    """The VLQ obligations, for checks whose property rests on the codec (C09): lemmas + function contracts, replay through the
+    executable contracts."""
+    vlq = importlib.import_module('calmjs.parse.vlq')
+    import contracts.vlq as cv
+    constants(run, vlq)
+    try:
+        cs, lemmas, env = cv.build(vlq)
+    except ValueError as e:
+        run.failed('const.alphabet_bijection', 'E3/const', 'alphabet', dict(error=str(e)), observed=str(e),
+                   required='INT_B64 has 64 distinct characters and B64_INT is its inverse', replayed=True)
+        return
+    prove_lemmas(run, lemmas)
+    conc = concretes(vlq)
+    verify_functions(run, cs, {c.qualname: c for c in cs}, conc, tier=tier)
+    for q, c in conc.items():            # the executable contracts as witnesses (and as the stand-in where a rewritten function leaves the subset)
+        f = run_bounded(run, c, tier, name='rt.vlq.' + q.split(':')[1])
+        if f is not None:
+            run.failed('rt.vlq.' + q.split(':')[1], 'E4/bounded', f['args'], f, observed=f['observed'], required=f['required'], replayed=True)
+
+
 def main(run, tier):
     vlq = importlib.import_module('calmjs.parse.vlq')
     import contracts.vlq as cv
